@@ -82,6 +82,77 @@ def translate(labels, rng, scn):
     return hist
 
 
+def lag_cfg(defects=(), max_events=4, max_cycles=3, invariants=('InvNoDup', 'InvNoAssert', 'InvSettled', 'InvView')):
+    """MasterLag.tla (watch latency) on 2 servers x 2 instances."""
+    name = 'MC_MasterLagGen'
+    mod = ['---- MODULE %s ----' % name, 'EXTENDS MasterLag', 'SrvSeqC == <<"s1", "s2">>',
+           'AppSeqC == <<"a1", "a2">>',
+           'DefectsC == {%s}' % ', '.join('"%s"' % d for d in defects), '====', '']
+    cfg = ['INIT Init', 'NEXT Next', 'CHECK_DEADLOCK FALSE', 'CONSTANTS', ' Srv = {"s1", "s2"}',
+           ' App = {"a1", "a2"}', ' SrvSeq <- SrvSeqC', ' AppSeq <- AppSeqC', ' Cap = 2',
+           ' MaxEvents = %d' % max_events, ' MaxCycles = %d' % max_cycles, ' Defects <- DefectsC',
+           ' StartupRace = FALSE']
+    cfg += ['INVARIANT %s' % i for i in invariants]
+    return name, name + '.cfg', {name + '.tla': '\n'.join(mod), name + '.cfg': '\n'.join(cfg) + '\n'}
+
+
+def translate_lag(labels, rng, scn):
+    """MasterLag.tla behaviour -> L2 history: nothing is delivered to the master
+    unless the behaviour says so; a cycle runs on whatever view it has."""
+    hist = [('Defer', [])]
+    labels = list(labels)
+    nprof, nsp = len(scn['aprofiles']), len(scn['sprofiles'])
+    i = 0
+    while i < len(labels):
+        ev, args = labels[i]
+        if ev == 'Schedule':
+            hist.append(('CreateApp', [args[0], rng.randrange(nprof) + 1]))
+        elif ev == 'Unschedule':
+            hist.append(('DeleteApp', [args[0]]))
+        elif ev in ('NodeDown', 'DeleteServer'):
+            hist.append((ev, [args[0]]))
+        elif ev in ('NodeUp', 'CreateServer'):
+            hist.append((ev, [args[0], rng.randrange(nsp) + 1]))
+        elif ev == 'DeliverScheduled':
+            hist.append(('DeliverPath', ['scheduled']))
+        elif ev == 'DeliverPresence':
+            hist.append(('DeliverPath', ['presence']))
+        elif ev == 'DeliverServers':
+            hist.append(('DeliverPath', ['events']))
+        elif ev == 'Crash':
+            hist.append(('Kill', []))
+        elif ev in ('Cycle', 'Restart'):
+            k, j, outcome, during = 0, i + 1, 'done', []
+            while j < len(labels):
+                if labels[j][0] == 'PubStep':
+                    k += 1
+                elif labels[j][0] == 'InitSchedule':
+                    pass
+                elif labels[j][0] == 'Crash':
+                    outcome = 'crash'
+                    break
+                elif labels[j][0] == 'Finish':
+                    break
+                elif ev == 'Cycle':
+                    # the environment acts while the cycle is being published: the
+                    # harness publishes in one go, these events follow the cut
+                    during.append(labels[j])
+                else:
+                    break
+                j += 1
+            if outcome == 'crash':
+                hist.append(('StaleCrashCycle' if ev == 'Cycle' else 'CrashRestart', [k + 1]))
+                labels = labels[:j + 1] + during + labels[j + 1:]
+                i = j
+            else:
+                hist.append(('StaleCycle' if ev == 'Cycle' else 'Restart', []))
+            if ev == 'Restart':
+                hist.append(('Defer', []))
+        i += 1
+    # settle: everything is delivered, one more cycle, then a fail-over
+    return hist + [('Deliver', []), ('Cycle', []), ('Restart', []), ('Cycle', [])]
+
+
 def with_cuts(hist, rng, ncuts):
     """Variants of a history where one Cycle/Restart is cut at write k."""
     idx = [i for i, (e, _) in enumerate(hist) if e in ('Cycle', 'Restart') and i > 0]
@@ -221,6 +292,18 @@ def run(ctx, prop):
                    need_actions=['Check', 'Run', 'Tick'])
         if pres['violated']:
             ctx.log('PendingStart.tla: %s violated in the MODEL' % pres['violated'])
+    if prop in ('C10', 'C09'):
+        # watch latency (MasterLag.tla): cycles on a view that lags the store
+        lmod, lcfg, lfiles = lag_cfg(max_events=4 if ctx.quick else 5, max_cycles=3 if ctx.quick else 4)
+        lres = tlc.mc(mc.SPEC_DIR, lmod, lcfg, extra_files=lfiles, coverage=True,
+                      timeout=300 if ctx.quick else 2400)
+        ctx.add_mc('MasterLag.tla (watch latency) 2 servers 2 instances events<=%d cycles+restarts<=%d'
+                   % ((4, 3) if ctx.quick else (5, 4)), lres,
+                   need_actions=['DeliverScheduled', 'DeliverPresence', 'DeliverServers', 'DeleteServer',
+                                 'CreateServer', 'Cycle', 'PubStep', 'Finish', 'Crash', 'Restart',
+                                 'InitSchedule'])
+        if lres['violated']:
+            ctx.log('MasterLag.tla: %s violated in the MODEL' % lres['violated'])
     hist = []
     scn = mc.SCENARIOS['base']
     if res['violated']:
@@ -263,6 +346,14 @@ def run(ctx, prop):
                 hist.append(('moves', hc))
         for _ in range(150 if ctx.quick else 3000):
             hist.append(('stale', gen_stale(scn, rng)))
+    if prop in ('C10', 'C09'):
+        gmod2, gcfg2, gfiles2 = lag_cfg(max_events=7, max_cycles=4, invariants=())
+        lb, lcmd = tlc.simulate(mc.SPEC_DIR, gmod2, gcfg2, num=120 if ctx.quick else 3000,
+                                depth=26, seed=ctx.seed + 11, procs=6 if ctx.quick else 12,
+                                extra_files=gfiles2, timeout=120 if ctx.quick else 900)
+        ctx.cmds.append(lcmd)
+        for b in lb:
+            hist.append(('tlc-lag', translate_lag(b, rng, scn)))
     if prop == 'C10' and not ctx.quick:
         for src, h in list(hist)[:150]:
             for hc in all_cuts(h):
